@@ -367,8 +367,10 @@ def run(tier: str, seed: int) -> Tuple[Stats, str, List[str], Dict[str, Any]]:
         stats.executions += 1
         stats.transitions += replay.get("n", 1)
         stats.outcome(oc)
-        if problem and len(stats.violations) < 200:
+        if problem:
             sig = "echo-name-too-long" if "NamePartTooLong" in problem else problem.split(":")[0]
+            if not stats.room({"check": sig}):
+                return
             stats.violations.append(Violation(f"C15 {replay.get('what')}: {problem}", replay, {"check": sig}))
 
     for item, (problem, oc) in zip(singles, pmap_iter(run_one, singles, chunk=64)):
